@@ -48,6 +48,13 @@ FamFull == Family(Seqs12({N(1), N(2)}), Seqs12({N(1), N(2), Wy(1), R(1)}),
 CuratedSmall == { D(<<N(1), N(2), Wy(1)>>, << <<Wy(1), <<N(1), N(2)>>>> >>, {N(1)}, {Wy(1)}),
                   D(<<N(1), N(2), Wy(1), R(1)>>, << <<Wy(1), <<N(1), N(2)>>>>, <<R(1), <<Wy(1), N(2)>>>> >>, {N(2)}, {R(1)}),
                   D(<<N(1), R(1), R(2)>>, << <<R(1), <<R(2)>>>>, <<R(2), <<R(1), N(1)>>>> >>, {N(1)}, {R(1)}) }
+(* "transitively" means to any depth: a chain of relations, each naming the one before it in the file, selected from its far
+   end - every level costs the extractor one more pass over the file.  Only replayed (one worker), not model-checked. *)
+DeepChain(n) == D(<<N(1), Wy(1)>> \o [i \in 1..n |-> R(i)],
+                  << <<Wy(1), <<N(1)>>>>, <<R(1), <<Wy(1), N(1)>>>> >> \o [i \in 1..(n - 1) |-> <<R(i + 1), <<R(i)>>>>],
+                  {N(1)}, {R(n)})
+DeepQuick == {DeepChain(40)}
+DeepThorough == {DeepChain(40), DeepChain(70)}
 DocsQuick == Curated \cup FamSmall
 DocsThorough == Curated \cup FamFull
 =============================================================================
